@@ -192,8 +192,11 @@ func (n *ResponderInterceptor) resendPackets(nack *rtcp.TransportLayerNack) {
 			stream.rtpBufferMutex.Unlock()
 
 			if p != nil {
-				// send without holding rtpBufferMutex
-				if _, err := stream.rtpWriter.Write(p.Header(), p.Payload(), interceptor.Attributes{}); err != nil {
+				// send without holding rtpBufferMutex; the writers further down the chain may modify the header
+				// they are given, and another NACK for the same packet may be answered concurrently from the
+				// same retained packet, so each retransmission gets its own copy of the header
+				header := p.Header().Clone()
+				if _, err := stream.rtpWriter.Write(&header, p.Payload(), interceptor.Attributes{}); err != nil {
 					n.log.Warnf("failed resending nacked packet: %+v", err)
 				}
 				p.Release()
